@@ -2,7 +2,10 @@
 package document
 
 import (
+	"bytes"
 	"encoding/xml"
+	"io"
+	"strings"
 )
 
 // OfficeMath 表示Office数学公式元素
@@ -85,6 +88,14 @@ func (d *Document) AddMathFormula(latex string, isBlock bool) *MathParagraph {
 		Runs: []Run{},
 	}
 
+	// 公式内容会作为原始XML写入文档：如果它不是格式良好的OMML片段，
+	// 则作为纯文本放入 m:r/m:t 中，避免生成无法打开的文档
+	if !isWellFormedMathFragment(latex) {
+		var escaped bytes.Buffer
+		xml.EscapeText(&escaped, []byte(latex))
+		latex = "<m:r><m:t>" + escaped.String() + "</m:t></m:r>"
+	}
+
 	// 创建公式内容
 	// 注意：这里使用RawXML来存储公式内容，因为OMML结构复杂
 	// 实际的LaTeX到OMML转换由markdown包的LaTeXToOMML函数完成
@@ -105,6 +116,63 @@ func (d *Document) AddMathFormula(latex string, isBlock bool) *MathParagraph {
 
 	d.Body.Elements = append(d.Body.Elements, mp)
 	return mp
+}
+
+// isWellFormedMathFragment 检查内容是否可以安全地作为 m:oMath 的内部XML
+func isWellFormedMathFragment(content string) bool {
+	const mathNS = "http://schemas.openxmlformats.org/officeDocument/2006/math"
+	const wordNS = "http://schemas.openxmlformats.org/wordprocessingml/2006/main"
+	wrapped := `<m:oMath xmlns:m="` + mathNS + `" xmlns:w="` + wordNS + `">` + content + `</m:oMath>`
+	decoder := xml.NewDecoder(strings.NewReader(wrapped))
+	knownSpace := func(space string) bool {
+		return space == "" || space == mathNS || space == wordNS || space == "xmlns" ||
+			space == "http://www.w3.org/XML/1998/namespace"
+	}
+	depth := 0
+	closed := false
+	for {
+		offset := decoder.InputOffset()
+		token, err := decoder.Token()
+		if err == io.EOF {
+			return closed && depth == 0
+		}
+		if err != nil {
+			return false
+		}
+		if closed {
+			// 包装元素已经关闭后不允许再有任何内容
+			if text, ok := token.(xml.CharData); !ok || len(bytes.TrimSpace(text)) > 0 {
+				return false
+			}
+			continue
+		}
+		switch t := token.(type) {
+		case xml.StartElement:
+			// 未声明的前缀会原样出现在Space中
+			if !knownSpace(t.Name.Space) {
+				return false
+			}
+			// 属性值中不能出现未转义的 '<'
+			if strings.Count(wrapped[offset:decoder.InputOffset()], "<") != 1 {
+				return false
+			}
+			seen := make(map[xml.Name]bool, len(t.Attr))
+			for _, attr := range t.Attr {
+				if !knownSpace(attr.Name.Space) || seen[attr.Name] {
+					return false
+				}
+				seen[attr.Name] = true
+			}
+			depth++
+		case xml.EndElement:
+			depth--
+			if depth == 0 {
+				closed = true
+			}
+		case xml.ProcInst, xml.Directive:
+			return false
+		}
+	}
 }
 
 // AddInlineMathFormula 向段落中添加行内数学公式
